@@ -25,7 +25,7 @@ import (
 // fakeBridge answers IsProposalExecuted from a script indexed by deposit nonce and records calls.
 type fakeBridge struct {
 	mu       sync.Mutex
-	status   map[uint64]string // nonce -> p|e|x
+	status   map[[2]uint64]string // (source, nonce) -> p|e|x
 	events   []string
 	serial   *sync.Mutex // held from ProposalsHash until the fetcher is reached (pairs log lines with batches)
 	hashErr  bool
@@ -33,7 +33,7 @@ type fakeBridge struct {
 }
 
 func (b *fakeBridge) IsProposalExecuted(p *transfer.TransferProposal) (bool, error) {
-	switch b.status[p.Data.DepositNonce] {
+	switch b.status[[2]uint64{uint64(p.Source), p.Data.DepositNonce}] {
 	case "e":
 		return true, nil
 	case "x":
@@ -82,18 +82,22 @@ func (f *failFetcher) GetKeyshare() (keyshare.ECDSAKeyshare, error) {
 func (f *failFetcher) LockKeyshare()   {}
 func (f *failFetcher) UnlockKeyshare() {}
 
-// mkProps: items `<gas|n>:<p|e|x>`; deposit nonce = index.
-func mkProps(spec string, msgID string) ([]*proposal.Proposal, map[uint64]string) {
+// mkProps: items `<gas|n>:<p|e|x>[:<source domain>]`; deposit nonce = index, source domain 1 unless given.
+func mkProps(spec string, msgID string) ([]*proposal.Proposal, map[[2]uint64]string) {
 	ps := []*proposal.Proposal{}
-	st := map[uint64]string{}
+	st := map[[2]uint64]string{}
 	for i, it := range items(spec, ";") {
 		f := strings.Split(it, ":")
 		md := map[string]interface{}{}
 		if f[0] != "n" {
 			md["gasLimit"] = u64(f[0])
 		}
-		st[uint64(i)] = f[1]
-		ps = append(ps, proposal.NewProposal(1, 2, transfer.TransferProposalData{
+		src := uint64(1)
+		if len(f) > 2 {
+			src = u64(f[2])
+		}
+		st[[2]uint64{src, uint64(i)}] = f[1]
+		ps = append(ps, proposal.NewProposal(uint8(src), 2, transfer.TransferProposalData{
 			DepositNonce: uint64(i), Metadata: md, Data: []byte{byte(i)},
 		}, msgID, transfer.TransferProposalType))
 	}
@@ -171,10 +175,32 @@ func init() {
 		}
 		return joinOr(out, ";")
 	}
+	// batchseq <cap> <tg> <delivery>|<delivery>|…  =>  <batches>|<batches>|… : several deliveries handled by ONE Executor
+	// object (the bridge's answers are those of the current delivery): batching is a function of the delivery alone
+	ops["C14.batchseq"] = func(a []string) string {
+		br := &fakeBridge{}
+		e := executor.NewExecutor(nil, nil, nil, br, nil, &sync.RWMutex{}, u64(a[0]), u64(a[1]))
+		outs := []string{}
+		for _, d := range strings.Split(a[2], "|") {
+			ps, st := mkProps(d, "m")
+			br.status = st
+			bs, err := e.VerifProposalBatches(ps)
+			if err != nil {
+				outs = append(outs, "err")
+				continue
+			}
+			out := []string{}
+			for _, b := range bs {
+				out = append(out, nonces(b.Proposals)+"/"+utoa(b.GasLimit))
+			}
+			outs = append(outs, joinOr(out, ";"))
+		}
+		return strings.Join(outs, "|")
+	}
 	gens["C14"] = genC14
 }
 
-func anyStatus(st map[uint64]string, s string) bool {
+func anyStatus(st map[[2]uint64]string, s string) bool {
 	for _, v := range st {
 		if v == s {
 			return true
@@ -260,6 +286,39 @@ func genC14(g *G) {
 			xs = append(xs, []string{"n", "0", "39", "40", "41", "100", "250", "1000"}[g.Intn(8)]+":"+st)
 		}
 		g.Emit("submit", "100", []string{"60", "0", "100", "101"}[g.Intn(4)], joinOr(xs, ";"))
+	}
+	// several deliveries on one Executor, proposals from different source domains with equal nonces, executed earlier /
+	// pending later and the other way round
+	for i := 0; i < g.Count(250, 5000); i++ {
+		nd := 2 + g.Intn(3)
+		ds := []string{}
+		for k := 0; k < nd; k++ {
+			n := 1 + g.Intn(4)
+			xs := []string{}
+			for j := 0; j < n; j++ {
+				st := []string{"p", "p", "e", "e", "x"}[g.Intn(5)]
+				if st == "x" && g.Intn(4) != 0 {
+					st = "p"
+				}
+				xs = append(xs, []string{"n", "0", "40", "100"}[g.Intn(4)]+":"+st+":"+itoa(1+g.Intn(3)))
+			}
+			ds = append(ds, strings.Join(xs, ";"))
+		}
+		g.Emit("batchseq", "100", []string{"60", "0"}[g.Intn(2)], strings.Join(ds, "|"))
+	}
+	// Execute-level with a zero transfer gas cost: batches whose gas limit is 0 still have members and must be signed
+	for i := 0; i < g.Count(80, 1500); i++ {
+		n := 1 + g.Intn(5)
+		xs := []string{}
+		for j := 0; j < n; j++ {
+			st := "p"
+			if g.Intn(4) == 0 {
+				st = "e"
+			}
+			xs = append(xs, []string{"n", "n", "0", "40", "100"}[g.Intn(5)]+":"+st)
+		}
+		g.Emit("exec", "100", "0", "m", joinOr(xs, ";"))
+		g.Emit("submit", "100", "0", joinOr(xs, ";"))
 	}
 	// Execute-level: which batches are hashed/signed and under which session id
 	mids := []string{"1-2-100-104", "m", "retry-1-2-7"}
